@@ -30,6 +30,8 @@ def worlds(tier):
         w.W("cond2-p(0.3,0.7)-EDF-2cpu", w.fixed_times(w.cond2((0.3, 0.7))), w.C2, "EDF", split=6, weight=20, work_conserving=True, tasks=small(CJ)),
         w.W("cond3-EDF", w.fixed_times(w.cond3()), w.C1, "EDF", split=7, weight=40, work_conserving=True, tasks=small(("C", "a", "b", "c", "J"))),
         w.W("cond-uneven-EDF", w.fixed_times(w.cond_uneven()), w.C2, "EDF", split=7, weight=40, work_conserving=True, tasks=small(("C", "a", "a2", "b", "J"))),
+        w.W("cond-with-a-fan-out-inside-one-branch-EDF", w.fixed_times(w.cond_fanbranch()), w.C2, "EDF", split=7, weight=60, work_conserving=True,
+            tasks={t: {"strategies": [{"rt": 2}]} for t in ("C", "a", "x", "x1", "x2", "x3", "xf", "J")}),
         w.W("cond-tail-FIFO", w.fixed_times(w.cond_tail()), w.C1, "FIFO", split=7, weight=40, work_conserving=True, tasks=small(("C", "a", "b", "J", "Z"))),
         w.W("cond-series-EDF", w.fixed_times(w.cond_series()), w.C1, "EDF", split=8, weight=60, work_conserving=True,
             tasks={t: {"strategies": [{"rt": 2}]} for t in ("C", "a", "b", "J", "D", "c", "d", "K")}),
